@@ -473,8 +473,18 @@ func (e *Engine) edgeCond(f *frame, from, to *ssa.BasicBlock) *smt.Term {
 		}
 		if f.split && !c.C[0].IsConst() && !c.C[0].IsTrue() && !c.C[0].IsFalse() {
 			// path splitting: this branch is explored one side at a time
-			key := fmt.Sprintf("%s/b%d", f.ctx, from.Index)
+			// decisions are keyed by the condition itself: a branch on a condition that was
+			// already decided (the same term) follows that decision and does not split again
+			ct := c.C[0]
+			flip := false
+			if ct.Op == "not" {
+				ct, flip = ct.Args[0], true
+			}
+			key := fmt.Sprintf("c%d", ct.ID())
 			want, ok := e.forced[key]
+			if flip {
+				want = !want
+			}
 			if !ok {
 				if !e.undecidedSeen[key] {
 					e.undecidedSeen[key] = true
